@@ -389,6 +389,14 @@ func (c *Compiler) Compile(node parser.Node) error {
 	case *parser.FuncLit:
 		c.enterScope()
 
+		// loops of the enclosing function are not visible inside the
+		// function literal: break/continue must not bind to them
+		outerLoops, outerLoopIndex := c.loops, c.loopIndex
+		c.loops, c.loopIndex = nil, -1
+		defer func() {
+			c.loops, c.loopIndex = outerLoops, outerLoopIndex
+		}()
+
 		for _, p := range node.Type.Params.List {
 			s := c.symbolTable.Define(p.Name)
 
